@@ -5,6 +5,8 @@
     EA <layout> <choices> <rec>       →  <hex>                       (… as an older writer would: choices = name=flag,…  or  -;
                                                                       name = condition field of a presence section, or $ver)
     D1 <layout> <hex>                 →  ok <rec> <rest length> | fail
+    RI <layout> <rec> <hex>           →  ok <rec> <rest length> | fail     (obj.Read(in) on an existing object <rec>;
+                                                                            ProfilePack: the transaction is built afresh)
     ES <item>|<item>|…                →  <hex>                       (ToBytesStep / service.ToBytes; item = <code>:<type>:<rec>)
     DS <step|svc> <hex>               →  ok <code>:<rec>@<consumed>|… | fail <k>   (ReadStep until the input is used up)
 
@@ -16,6 +18,7 @@
 -/
 import Golib.Step.Layouts
 import Golib.Step.Alt
+import Golib.Step.Reuse
 import Driver.Common
 
 open Step Drv
@@ -151,6 +154,16 @@ def answer (line : String) : String :=
       | some (e, rest) => s!"ok {showRec l e} {rest.length}"
       | none => "fail"
     | _, _ => "bad-op"
+  | ["RI", nm, prior, hex] =>
+    match layoutByName nm, parseRec prior, ofHex hex with
+    | some l, some o, some bs =>
+      match (if nm == "ProfilePack" then profilePackReadInto o bs else l.readInto o bs) with
+      | some (p, rest) =>
+        let fs := l.fieldShapes
+        let body := if fs.isEmpty then "-" else ";".intercalate (fs.map (fun (f, _) => s!"{f}={showVal (p f)}"))
+        s!"ok {body} {rest.length}"
+      | none => "fail"
+    | _, _, _ => "bad-op"
   | ["ES", items] =>
     match (if items == "-" then some [] else (items.splitOn "|").mapM parseItem) with
     | some ss => hexOf (toBytesStep ss)
